@@ -24,6 +24,12 @@ theorem byteAt_of_drop {buf : Bytes} {off : Nat} {b : UInt8} {rest : Bytes} (h :
   obtain ⟨h1, h2, h3⟩ := drop_cons h
   exact ⟨by unfold byteAt; rw [h1], h2, h3⟩
 
+theorem byteAt_ok_lt256 {buf : Bytes} {i v : Nat} (h : byteAt buf i = .ok v) : v < 256 := by
+  unfold byteAt at h
+  split at h
+  · simp at h; subst h; exact UInt8.toNat_lt _
+  · simp at h
+
 /-! ### single steps of the literal-label loop -/
 
 theorem lit_end {cfg : Cfg} {buf : Bytes} {fuel off : Nat} (hb : byteAt buf off = .ok 0) (hlt : off < buf.length) :
@@ -292,7 +298,7 @@ theorem decodeAt_agrees {cfg : Cfg} (hc : CfgOK cfg) (ha : CfgAgree cfg) (buf : 
           simp only []
           rw [hb1]
           simp only []
-          have hlink : Gen.Incoming.link b0 b1 = k := by rw [link_eq hb0 hb0', hk']
+          have hlink : Gen.Incoming.link b0 b1 = k := by rw [link_eq hb0 hb0' (byteAt_ok_lt256 hb1), hk']
           have hpl := byteAt_ok_lt hb1
           rw [hlink, if_neg (by rw [link_in_packet (by omega)]; simp), if_neg (by rw [link_not_self (by omega)]; simp)]
           have hns : seen.contains k = false := by
